@@ -23,8 +23,8 @@ type c11Case struct {
 	DirName   string `json:"dir"`    // PS3ISO | ps3iso | Ps3Iso | PS3ISOX | GAMES
 	Prefix    string `json:"prefix"` // "" or "x" (directory above the PS3ISO element)
 	Ext       string `json:"ext"`
-	Depth     int    `json:"depth"` // nesting below the PS3ISO element
-	Key       string `json:"key"`   // none | adjacent | redkey | both | malformed | malformed+redkey | redkey-is-file
+	Depth     int    `json:"depth"`               // nesting below the PS3ISO element
+	Key       string `json:"key"`                 // none | adjacent | redkey | both | malformed | malformed+redkey | redkey-is-file
 	LongName  bool   `json:"long_name,omitempty"` // the image's name has 255 bytes: no key file can exist beside it
 	Watermark string `json:"watermark"`
 	Length    int    `json:"length"`
